@@ -259,7 +259,7 @@ def check_init(prog, im, scalar):
     E, facts = analyse(prog, im, scalar)
     key_param = ('sym', im.params[0]['n'])
     name_param = ('sym', im.params[1]['n']) if len(im.params) > 1 else None
-    res = {k: [] for k in ('candidates', 'one-install', 'key', 'selected', 'old-entry', 'dangling', 'double', 'name-match', 'fatal-registers', 'complete')}
+    res = {k: [] for k in ('candidates', 'one-install', 'key', 'selected', 'old-entry', 'dangling', 'double', 'name-match', 'fatal-registers', 'raw-name', 'complete')}
     n_created = set()
     n_ret = 0
     for F in facts:
@@ -269,6 +269,18 @@ def check_init(prog, im, scalar):
             res['complete'].append('%s: %s' % (loc, what))
         if F.summarised and (F.deleted or F.registered):
             res['complete'].append('loop at %s could not be unrolled (condition not decidable from the candidate list)' % F.summarised[0])
+        # the name parameter may influence the outcome only through the comparison of its normal form with the candidates' names
+        if name_param is not None:
+            mm = ('call', 'masa_map', (name_param,))
+            for c in F.conds:
+                if name_param not in list(terms.subterms(c)):
+                    continue
+                eq = equality_fact(c) or equality_fact(('not', c))
+                if eq is not None and mm in eq and all((x == mm) or (name_param not in list(terms.subterms(x))) for x in eq):
+                    continue
+                res['raw-name'].append('a path%s depends on `%s`: the raw name, not its normal form compared with the catalogue, decides' % (
+                    ' that ends in masa_exit' if F.kind == 'exit' else '', terms.fmt(c)[:70]))
+                break
         dels = [d[1] for d in F.deleted]
         for t in set(dels):
             if dels.count(t) > 1:
